@@ -492,6 +492,71 @@ def oracle_codomain(payload):
     return None
 
 
+def _boundary_ns(bits):
+    M = 1 << bits
+    ns = set(range(0, 12)) | {M - 1, M - 2, M - 3, M // 2, M // 2 - 1, M // 3, M // 3 + 1}
+    for b in (8, 16, 31, 32, 33, 40, 63, 64):
+        if b <= bits:
+            for d in (-2, -1, 0, 1, 2):
+                ns.add((1 << b) + d)
+    return sorted(n for n in ns if 0 <= n < M)
+
+
+def oracle_codomain_sampled(payload):
+    """C05 on the implementation at boundary values of n (for widths too large to enumerate)"""
+    bits, s = payload
+    e, err = _parse(s)
+    if err:
+        return None
+    try:
+        cd = e.codomain(bits=bits)
+    except Exception as ex:  # noqa
+        return 'codomain raised %s' % type(ex).__name__
+    for n in _boundary_ns(bits):
+        try:
+            v = e(n, bits=bits)
+        except (OverflowError, ZeroDivisionError):
+            continue
+        if cd is None:
+            return 'codomain is None but f(%d) = %d succeeds (bits=%d)' % (n, v, bits)
+        if not (cd[0] <= v <= cd[1]):
+            return 'codomain (%d, %d) but f(%d) = %d (bits=%d)' % (int(cd[0]), int(cd[1]), n, v, bits)
+    return None
+
+
+def oracle_period_sampled(payload):
+    """C06 on the implementation around boundary values (for widths too large to enumerate)"""
+    bits, s = payload
+    e, err = _parse(s)
+    if err:
+        return None
+    try:
+        pr = e.period(bits=bits)
+    except Exception as ex:  # noqa
+        return 'period raised %s' % type(ex).__name__
+    if pr is None:
+        return None
+    o, p = pr
+    if p < 1 or o < 0:
+        return 'period (%d, %d) is not a period' % (o, p)
+    M = 1 << bits
+
+    def out(n):
+        try:
+            return e(n, bits=bits)
+        except (OverflowError, ZeroDivisionError):
+            return 'E'
+    cand = set()
+    for n in _boundary_ns(bits):
+        for d in (0, -p, -2 * p):
+            cand.add(n + d)
+    cand |= set(range(o, o + 300))
+    for n in sorted(cand):
+        if o <= n and n + p < M and out(n) != out(n + p):
+            return 'period (%d, %d) but outcome(%d) = %s and outcome(%d) = %s (bits=%d)' % (o, p, n, out(n), n + p, out(n + p), bits)
+    return None
+
+
 def oracle_period(payload):
     """C06 on the implementation by brute force."""
     bits, s = payload
